@@ -127,7 +127,7 @@ func newHelpers(pkgs []*packages.Package, base map[string]bool, skip map[string]
 			continue
 		}
 		sig := d.fn.Type().(*types.Signature)
-		if sig.TypeParams().Len() > 0 || sig.RecvTypeParams().Len() > 0 {
+		if sig.RecvTypeParams().Len() > 0 {
 			continue
 		}
 		out[d.fn] = d
@@ -150,7 +150,26 @@ func normalise(repo string, pkgs []*packages.Package) (*normResult, []*packages.
 	if len(newHelpers(pkgs, base, skip)) == 0 && len(newClosureVars(pkgs, cbase, skip)) == 0 {
 		return res, pkgs, nil
 	}
+	var roundKeys []string
+	var snapshot map[string][]byte
+	// a step after which the program no longer type-checks is taken back and its subject left alone:
+	// normalisation must never be the reason a tree cannot be analysed
+	rollback := func(cause error) error {
+		res.Overlay = snapshot
+		for _, k := range roundKeys {
+			skip[k] = true
+		}
+		res.Log = append(res.Log, fmt.Sprintf("took back the last step (%v); left alone: %s", cause, strings.Join(roundKeys, ", ")))
+		var err error
+		pkgs, err = loadPkgs(repo, res.Overlay)
+		return err
+	}
 	for round := 0; round < 150; round++ {
+		roundKeys = nil
+		snapshot = map[string][]byte{}
+		for k, v := range res.Overlay {
+			snapshot[k] = v
+		}
 		// local closures first: one step per file and round
 		if cvs := newClosureVars(pkgs, cbase, skip); len(cvs) > 0 {
 			stepped := false
@@ -174,12 +193,15 @@ func normalise(repo string, pkgs []*packages.Package) (*normResult, []*packages.
 				res.Log = append(res.Log, what)
 				doneFile[name] = true
 				stepped = true
+				roundKeys = append(roundKeys, closureKey(cv))
 			}
 			if stepped {
 				var err error
 				pkgs, err = loadPkgs(repo, res.Overlay)
 				if err != nil {
-					return nil, nil, fmt.Errorf("after closure normalisation: %v", err)
+					if err2 := rollback(err); err2 != nil {
+						return nil, nil, fmt.Errorf("after closure normalisation: %v", err2)
+					}
 				}
 				continue
 			}
@@ -245,6 +267,7 @@ func normalise(repo string, pkgs []*packages.Package) (*normResult, []*packages.
 		progressed := false
 		// attempt one candidate; literal=false refuses the function-literal fallback
 		attempt := func(c cand, literal bool) (bool, error) {
+			roundKeys = append(roundKeys, c.h.fn.FullName())
 			f := c.file
 			fset := c.pkg.Fset
 			name := fset.Position(f.Pos()).Filename
@@ -256,6 +279,24 @@ func normalise(repo string, pkgs []*packages.Package) (*normResult, []*packages.
 			hcontent, err := fileContent(res.Overlay, hname)
 			if err != nil {
 				return false, err
+			}
+			if c.h.fn.Type().(*types.Signature).TypeParams().Len() > 0 {
+				// generic helper: only the statement-level inliner instantiates type parameters
+				out, err2 := stmtInline(c.pkg, f, c.call, content, c.h.pkg, c.h.decl, hcontent)
+				if err2 == nil {
+					res.Overlay[name] = out
+					res.Log = append(res.Log, fmt.Sprintf("inlined the generic helper %s into %s (statement-level)", c.h.fn.FullName(), fset.Position(c.call.Pos())))
+					return true, nil
+				}
+				out, err3 := hoistCall(c.pkg, f, c.call, content)
+				if err3 == nil {
+					res.Overlay[name] = out
+					res.Log = append(res.Log, fmt.Sprintf("hoisted the call of %s at %s into its own statement", c.h.fn.FullName(), fset.Position(c.call.Pos())))
+					return true, nil
+				}
+				skip[c.h.fn.FullName()] = true
+				res.Log = append(res.Log, fmt.Sprintf("not inlined: generic helper %s (%v; %v)", c.h.fn.FullName(), err2, err3))
+				return false, nil
 			}
 			callee, err := inline.AnalyzeCallee(func(string, ...any) {}, c.h.pkg.Fset, c.h.pkg.Types, c.h.pkg.TypesInfo, c.h.decl, hcontent)
 			if err != nil {
@@ -336,7 +377,9 @@ func normalise(repo string, pkgs []*packages.Package) (*normResult, []*packages.
 		var err error
 		pkgs, err = loadPkgs(repo, res.Overlay)
 		if err != nil {
-			return nil, nil, fmt.Errorf("after helper normalisation: %v", err)
+			if err2 := rollback(err); err2 != nil {
+				return nil, nil, fmt.Errorf("after helper normalisation: %v", err2)
+			}
 		}
 	}
 	// helpers that are no longer referenced anywhere
